@@ -87,6 +87,11 @@ func (e *Engine) Refresh() {
 	// prompt end (thus indentation), cursor positions, etc.
 	e.computeCoordinates(true)
 
+	// Everything after the prompt is printed again below: clear it first, so that
+	// cells that are not written (such as the one left empty when a wide character
+	// wraps before the last column) don't keep anything of the previous line.
+	fmt.Print(term.ClearScreenBelow)
+
 	// Print the line, and any of the secondary and right prompts.
 	e.displayLine()
 	e.displayMultilinePrompts()
